@@ -10,13 +10,15 @@ import (
 	"unsafe"
 )
 
-// verifDumpSkip: caches, scratch buffers and the shared Program are not part
-// of the persistent per-interpreter state the reuse property talks about.
+// verifDumpSkip: scratch buffers and the shared Program are not part of the
+// persistent per-interpreter state the reuse property talks about. (The regex
+// and format caches are dumped: two histories that differ only in what they
+// left in a cache must not be merged.)
 // (A field that is renamed simply stops being skipped: the dump gets finer,
 // never wrong.)
 var verifDumpSkip = map[string]bool{
 	"program": true, "functions": true, "nums": true, "strs": true, "regexes": true,
-	"regexCache": true, "formatCache": true, "splitBuffer": true, "inputBuffer": true,
+	"splitBuffer": true, "inputBuffer": true,
 	"stack": true, "frame": true, "scalarIndexes": true, "arrayIndexes": true, "random": true,
 	"ctxDone": true,
 }
